@@ -51,13 +51,20 @@ struct Charge {
     amount: OwnedAmount,
 }
 
+/// Makes the given statement text safe to be printed as a payee or a comment:
+/// line breaks would otherwise start a new (bogus) line of the transaction,
+/// and surrounding spaces are not preserved by the Ledger syntax.
+fn single_line(text: &str) -> String {
+    text.replace(['\r', '\n'], " ").trim().to_string()
+}
+
 impl Txn {
     pub fn new(date: NaiveDate, payee: &str, amount: OwnedAmount) -> Txn {
         Txn {
             date,
             effective_date: None,
             code: None,
-            payee: payee.to_string(),
+            payee: single_line(payee),
             comments: Vec::new(),
             dest_account: None,
             clear_state: None,
@@ -88,7 +95,7 @@ impl Txn {
     }
 
     pub fn add_comment(&mut self, comment: String) -> &mut Txn {
-        self.comments.push(comment);
+        self.comments.push(single_line(&comment));
         self
     }
 
